@@ -971,6 +971,10 @@ func c08ExtensionWindow(r *run.Run) {
 	if !r.Quick() {
 		window = 40
 	}
+	c08ExtensionWindowPart(r, "C08.extension-window", window)
+}
+
+func c08ExtensionWindowPart(r *run.Run, name string, window int) {
 	sub := func(n int) gtab.Subtable { // single substitution 1.2 with n adjacent glyphs: 16 + 2n bytes
 		cov := coverage.Table{}
 		subst := make([]glyph.ID, n)
@@ -1046,7 +1050,7 @@ func c08ExtensionWindow(r *run.Run) {
 			}
 		}
 	}
-	r.Explore(explore.Config{Name: "C08.extension-window", Deadline: r.PartDeadline(0.4)},
+	r.Explore(explore.Config{Name: name, Deadline: r.PartDeadline(0.4)},
 		fmt.Sprintf("lookup lists of single-substitution lookups [n entries; 3 or 4 lookups of 20, 21, ... KiB; 25 KiB] x all assignments of mark filtering sets to the lookups but the last x 1 or 2 subtables per lookup: the entry count n of the first (smallest) lookup in every step of a window of +-%d around each of the %d points (found by bisection over n = %d..%d) at which the encoder moves one more lookup behind extension records or starts to refuse: the list comes back intact or the encoder refuses loudly", window, len(points), lo, hi),
 		func(c *explore.Ctx) {
 			pt := points[c.Choose(len(points), "configuration and transition point")]
